@@ -40,6 +40,7 @@ def main(argv=None):
     ap.add_argument('--replay')
     ap.add_argument('--setup', action='store_true')
     args = ap.parse_args(argv)
+    t_start = time.time()
     if args.setup:
         sys.exit(setup())
     prop = args.prop
@@ -81,6 +82,15 @@ def main(argv=None):
     try:
         if os.path.exists(common.DRIVER):
             dis = list(mod.correspond(ctx) or [])
+            # thorough tier: further rounds with fresh random streams (the context's generator advances) until a round
+            # reports something, the round limit is reached or about a third of the time budget is used
+            rounds = 1
+            max_rounds = int(os.environ.get('VERIF_THOROUGH_ROUNDS', '6')) if ctx.thorough else 1
+            while not dis and rounds < max_rounds and time.time() - t_start < 1100:
+                dis = list(mod.correspond(ctx) or [])
+                rounds += 1
+            ctx.hist['rounds'] = rounds
+            ctx.notes = list(dict.fromkeys(ctx.notes))
         else:
             lean.failed.append('driver:not-built')
     except common.DriverError as e:
